@@ -14,13 +14,20 @@ RULE = ("one case = a history of create / hand-made recording / save (optionally
         "combination of read_only, transient, key prefix from '', a, ab, a/b, a/full, non-ASCII; optional "
         "infrequent-access threshold and sampling calculator) sharing one fake bucket with foreign objects and residues "
         "of interrupted saves; every uninterrupted save is also crash-probed at each of its mutation boundaries on a "
-        "snapshot; non-trivial = at least one bucket mutation and at least one of: read-only call, close of a "
+        "snapshot; streams: main, readonly, nested (a/full inside a), long (a writable transient cassette - sometimes with a "
+        "second writer on its prefix - holds 4-10 recordings, i.e. more than one listing page of the fake client API, when "
+        "it is closed), slashes (key prefixes, categories and hand-made ids that begin with '/', are '/', hold '//', end "
+        "in '/' or are empty, next to foreign objects at the places such keys would escape to), 14 fixed scenarios; "
+        "non-trivial = at least one bucket mutation and at least one of: read-only call, close of a "
         "transient cassette, interrupted save; distinct = distinct case")
 ASSUMPTIONS = ["assertions enabled (no python -O): the read-only guard is an assert statement",
                "uuid1().hex and datetime.today() are replaced by deterministic fakes (ids are then comparable texts)",
                "S3 put_object/delete are atomic per object; a crash is modelled as the bucket refusing the n-th mutation",
                "zlib is the identity in the model run (bodies are never compared, only keys and outcome kinds)"]
-TRUSTED = ["fake bucket behind the real S3BasicFacade (harness/impl/fake_s3.py): mutation log, crash injection",
+TRUSTED = ["fake bucket behind the real S3BasicFacade (harness/impl/fake_s3.py): mutation log, crash injection; resource "
+           "collections walk every page; the client API (list_objects_v2 / list_objects / paginators / delete_objects / "
+           "delete_object) answers listings in pages of 3 keys with IsTruncated + continuation token (S3 may answer fewer "
+           "keys than MaxKeys), deletes at most 1000 keys per request and logs one mutation per deleted object",
            "harness-side mirror of which create calls succeed (to know recording ids in advance); a wrong mirror only "
            "lowers coverage, the created ids themselves are compared with the model"]
 
@@ -33,6 +40,19 @@ FOREIGN = ["other/x", "tape_recorder_recordings_old/full/Op/1", ROOT + "zz/full/
            ROOT + "zz/metadata/Op/20200227/f", ROOT + "abc", ROOT + "afull/Op/20200227/g",
            ROOT + "ametadata/Op/20200227/g", ROOT + "a", "tape_recorder_recordings"]
 RATIOS = [[0, 1], [1, 2], [1, 1], [3, 2], [1, 4]]
+# stream "slashes": key prefixes / categories / hand-made ids that begin with '/', are '/' only, hold '//' inside, end in
+# '/' or are empty (the category is free text of the recorder's user, e.g. the route of a web handler): the S3 keys are
+# plain string concatenations, none of these may move a key out of <root><prefix>/ or make full and metadata keys meet
+SLASH_PREFIXES = ["/abs", "a//b", "/", "abs", "", "a/", "//", "/abs"]
+SLASH_CATS = ["/api/v1/plans", "a//b", "", "Op", "/", "/abs"]
+SLASH_HAND_IDS = ["/abs/20200227/h3", "//x/y/z", "/", "/full/20200227/h4", "Op/20200227//h5"]
+SLASH_FOREIGN = ["/api/v1/plans/20200227/x", "/abs/full/Op/20200227/f", "abs/full/Op/20200227/f", "/", "//x/y/z",
+                 "/abs/metadata/Op/20200227/f", "full/Op/20200227/f", "tape_recorder_recordings/x"]
+# stream "long": one writable transient cassette holds more recordings than ONE LISTING PAGE of the fake bucket's client
+# API when it is closed (harness/impl/fake_s3.py PAGE_SIZE = 3: S3 may answer any listing with fewer keys than asked for
+# and IsTruncated, so clean-up code has to follow the continuation whatever the page size is)
+FAKE_PAGE_SIZE = 3
+LONG_COUNTS = [FAKE_PAGE_SIZE + 1, FAKE_PAGE_SIZE + 2, 2 * FAKE_PAGE_SIZE, 2 * FAKE_PAGE_SIZE + 1, 3 * FAKE_PAGE_SIZE + 1]
 
 
 def norm(p):
@@ -47,6 +67,9 @@ def small_val(rng):
 def gen_case(rng, tier, stream):
     ncas = rng.randrange(2, 5)
     pool = PREFIXES if stream != "nested" else ["a", "a/full", "a/metadata", "a"]
+    cats, hand_ids, foreign = CATS, HAND_IDS, FOREIGN
+    if stream == "slashes":
+        pool, cats, hand_ids, foreign = SLASH_PREFIXES, SLASH_CATS, HAND_IDS[:3] + SLASH_HAND_IDS, FOREIGN[:5] + SLASH_FOREIGN
     cass = []
     for _ in range(ncas):
         cass.append(dict(prefix=rng.choice(pool), read_only=rng.random() < 0.35, transient=rng.random() < 0.5,
@@ -57,25 +80,47 @@ def gen_case(rng, tier, stream):
         cass[0]["read_only"] = False
         for c in cass[1:]:
             c["read_only"] = True
+    if stream == "long":
+        cass[0].update(read_only=False, transient=True, calc=False)
     # several views of one prefix (writer + read-only reader + transient closer) are the interesting ones
     if rng.random() < 0.6:
         cass.append(dict(cass[0], read_only=True, transient=rng.random() < 0.5))
     if rng.random() < 0.4:
         cass.append(dict(cass[0], read_only=False, transient=True, ia=None, calc=False))
     ops = []
-    for k in rng.sample(FOREIGN, rng.randrange(2, 6)):
+    for k in rng.sample(foreign, rng.randrange(2, 6)):
         ops.append(dict(op="raw_put", key=k, body="foreign %s" % k))
     slots = {}       # slot -> id (mirror)
     nuuid = 0
     saved = []       # (cas index, id) believed to be in the bucket
-    known_ids = list(HAND_IDS[:2])
+    known_ids = list(hand_ids[:2])
     n_ops = rng.randrange(6, 16 if tier == "quick" else 24)
+    if stream == "long":
+        # the transient cassette (and sometimes a second writer on its prefix) fills more than one listing page
+        writers = [0] + [i for i, x in enumerate(cass) if i and not x["read_only"] and x["prefix"] == cass[0]["prefix"]]
+        for _ in range(rng.choice(LONG_COUNTS)):
+            slot = len(slots)
+            ci = rng.choice(writers) if rng.random() < 0.3 else 0
+            if rng.random() < 0.8:
+                cat, day = rng.choice(cats), rng.choice([0, 0, 1])
+                ops.append(dict(op="create", cas=ci, slot=slot, cat=cat, day=day, data=[["k", small_val(rng)]],
+                                meta=[["m", small_val(rng)]] if rng.random() < 0.7 else []))
+                nuuid += 1
+                rid = "%s/%s/%032x" % (cat, (BASE + datetime.timedelta(days=day)).strftime("%Y%m%d"), nuuid)
+            else:
+                rid = "Op/20200227/long%d" % slot
+                ops.append(dict(op="mk", slot=slot, id=rid, data=[["k", small_val(rng)]], meta=[["m", small_val(rng)]]))
+            slots[slot] = rid
+            known_ids.append(rid)
+            ops.append(dict(op="save", cas=ci, slot=slot, ratio=rng.choice(RATIOS) if cass[ci]["calc"] else None, crash=None))
+            saved.append((ci, rid))
+        n_ops = rng.randrange(0, 6)
     for _ in range(n_ops):
         r = rng.random()
         ci = rng.randrange(len(cass))
         c = cass[ci]
         if r < 0.20:
-            cat = rng.choice(CATS)
+            cat = rng.choice(cats)
             day = rng.choice([0, 0, 1, 3])
             slot = len(slots) if rng.random() < 0.8 or not slots else rng.choice(list(slots))
             op = dict(op="create", cas=ci, slot=slot, cat=cat, day=day,
@@ -89,7 +134,7 @@ def gen_case(rng, tier, stream):
                 slots[slot] = rid
                 known_ids.append(rid)
         elif r < 0.27:
-            rid = rng.choice(HAND_IDS)
+            rid = rng.choice(hand_ids)
             slot = len(slots)
             ops.append(dict(op="mk", slot=slot, id=rid, data=[["k", small_val(rng)]],
                             meta=[["m", small_val(rng)]] if rng.random() < 0.7 else []))
@@ -111,7 +156,7 @@ def gen_case(rng, tier, stream):
             rid = rng.choice(known_ids) if rng.random() < 0.85 else "Op/20200227/unknown"
             ops.append(dict(op=rng.choice(["get", "get_meta", "get_meta"]), cas=ci, id=rid))
         elif r < 0.78:
-            ops.append(dict(op="list", cas=ci, cat=rng.choice(CATS)))
+            ops.append(dict(op="list", cas=ci, cat=rng.choice(cats)))
         elif r < 0.90:
             ops.append(dict(op=rng.choice(["close", "exit"]), cas=ci))
         elif r < 0.95 and saved:
@@ -119,15 +164,66 @@ def gen_case(rng, tier, stream):
             sc, rid = rng.choice(saved)
             ops.append(dict(op="raw_del", key=ROOT + norm(cass[sc]["prefix"]) + "metadata/" + rid))
         else:
-            k = rng.choice(FOREIGN)
+            k = rng.choice(foreign)
             ops.append(dict(op="raw_put", key=k, body="foreign again"))
+    if stream == "long":
+        ops.append(dict(op=rng.choice(["close", "exit"]), cas=0))
     # the ids of residues are "known from elsewhere": read them through every read-only view at the end
     for ci, c in enumerate(cass):
         if c["read_only"] and saved and rng.random() < 0.8:
             sc, rid = rng.choice(saved)
             ops.append(dict(op="get_meta", cas=ci, id=rid))
             ops.append(dict(op="get", cas=ci, id=rid))
-    return dict(cassettes=cass, ops=ops, categories=CATS, stream=stream)
+    return dict(cassettes=cass, ops=ops, categories=cats, stream=stream)
+
+
+def W(prefix, transient, **kw):
+    return dict(dict(prefix=prefix, read_only=False, transient=transient, ia=None, calc=False), **kw)
+
+
+def fixed_long(n, p, p2, closing):
+    """n recordings (more than one listing page) on a writable transient cassette, two on a neighbour, then close"""
+    cass = [W(p, True), W(p2, False), W(p, True, read_only=True), W(p, False, ia=0.001)]
+    ops = [dict(op="raw_put", key=k, body="foreign") for k in FOREIGN]
+    for i in range(n):
+        w = 3 if i == 1 else 0            # one of them is written by another (non-transient) cassette on the same prefix
+        if i == 2:
+            ops.append(dict(op="mk", slot=i, id="OpX/20200228/long", data=[["k", pv.i(i)]], meta=[["m", pv.i(i)]]))
+        else:
+            ops.append(dict(op="create", cas=w, slot=i, cat=CATS[i % 2], day=i % 2, data=[["k", pv.i(i)]], meta=[["m", pv.i(i)]]))
+        ops.append(dict(op="save", cas=w, slot=i, ratio=None, crash=None))
+    for i in (n, n + 1):
+        ops.append(dict(op="create", cas=1, slot=i, cat="Op", day=0, data=[["k", pv.s("n")]], meta=[]))
+        ops.append(dict(op="save", cas=1, slot=i, ratio=None, crash=None))
+    ops += [dict(op="list", cas=2, cat="Op"), dict(op="close", cas=2), dict(op="close", cas=3),
+            dict(op=closing, cas=0), dict(op="list", cas=2, cat="Op"), dict(op="list", cas=1, cat="Op"),
+            dict(op="get", cas=2, id="Op/20200227/%032x" % 1), dict(op="get", cas=1, id="Op/20200227/%032x" % n),
+            dict(op=closing, cas=0)]
+    return dict(cassettes=cass, ops=ops, categories=CATS, stream="fixed-long")
+
+
+def fixed_slashes(p, cat, p2):
+    """a category / key prefix with leading, doubled or only slashes on a transient cassette next to a neighbour"""
+    day = BASE.strftime("%Y%m%d")
+    cass = [W(p, True), W(p2, False), W(p, False, read_only=True), W(p, False, calc=True)]
+    ops = [dict(op="raw_put", key=k, body="foreign") for k in FOREIGN[:4] + SLASH_FOREIGN]
+    ops += [dict(op="create", cas=0, slot=0, cat=cat, day=0, data=[["k", pv.i(1)]], meta=[["m", pv.i(2)]]),
+            dict(op="save", cas=0, slot=0, ratio=None, crash=None),
+            dict(op="create", cas=0, slot=1, cat="Op", day=0, data=[["k", pv.i(3)]], meta=[]),
+            dict(op="save", cas=0, slot=1, ratio=None, crash=None),
+            dict(op="create", cas=1, slot=2, cat=cat, day=0, data=[["k", pv.i(4)]], meta=[["m", pv.i(5)]]),
+            dict(op="save", cas=1, slot=2, ratio=None, crash=None),
+            dict(op="create", cas=3, slot=3, cat=cat, day=1, data=[], meta=[["m", pv.i(6)]]),
+            dict(op="save", cas=3, slot=3, ratio=[1, 1], crash=None),
+            dict(op="save", cas=3, slot=0, ratio=[1, 2], crash=1),
+            dict(op="list", cas=2, cat=cat), dict(op="list", cas=1, cat=cat),
+            dict(op="get", cas=2, id="%s/%s/%032x" % (cat, day, 1)),
+            dict(op="get_meta", cas=2, id="%s/%s/%032x" % (cat, day, 1)),
+            dict(op="get", cas=1, id="%s/%s/%032x" % (cat, day, 3)),
+            dict(op="exit", cas=0), dict(op="list", cas=2, cat=cat),
+            dict(op="get", cas=2, id="%s/%s/%032x" % (cat, day, 1)),
+            dict(op="get", cas=1, id="%s/%s/%032x" % (cat, day, 3))]
+    return dict(cassettes=cass, ops=ops, categories=sorted(set(["Op", cat])), stream="fixed-slashes")
 
 
 def generate(rng, tier):
@@ -161,6 +257,19 @@ def generate(rng, tier):
                 dict(op="get", cas=2, id="Op/20200227/%032x" % 1),
                 dict(op="get", cas=3, id="Op/20200227/%032x" % 2)]
         cases.append(dict(cassettes=cass, ops=ops, categories=CATS, stream="fixed"))
+    # deterministic probes (always run): long histories on a transient cassette; slashes in categories / key prefixes
+    for n, p, p2, closing in ((FAKE_PAGE_SIZE + 1, "a", "ab", "close"), (2 * FAKE_PAGE_SIZE + 1, "", "a", "exit"),
+                              (3 * FAKE_PAGE_SIZE, "a/b", "a", "close")):
+        cases.append(fixed_long(n, p, p2, closing))
+    for p, cat, p2 in (("svc", "/api/v1/plans", "nb"), ("/abs", "Op", "abs"), ("a//b", "a//b", "a"), ("", "/x", "/"),
+                       ("svc", "", "sv"), ("/", "/", "//"), ("a/", "Op//", "a")):
+        cases.append(fixed_slashes(p, cat, p2))
+    # separate generators: the main streams above draw the same cases as before these streams existed
+    rng_long, rng_slash = (__import__("random").Random(rng.getrandbits(64)) for _ in range(2))
+    for _ in range(12 if tier == "quick" else 120):
+        cases.append(gen_case(rng_long, tier, "long"))
+    for _ in range(24 if tier == "quick" else 240):
+        cases.append(gen_case(rng_slash, tier, "slashes"))
     return cases
 
 
@@ -376,7 +485,7 @@ def search_harder(rng, bad_cases):
 
 MANIFEST = dict(
     design_ref='6/C15',
-    text="Coq theorems over all histories of calls (create, save incl. a crash after each single bucket mutation, get, get_metadata, list, close, context exit) on any number of S3 cassettes (all read_only/transient/prefix combinations) sharing one bucket: read-only cassettes never change bucket or log and refuse create/save; every mutated key lies under root+normalised prefix and nothing outside changes; closing a writable transient cassette removes every key it ever wrote and only keys under its full/ and metadata/ prefixes, leaving cassettes with path-independent prefixes (a vs ab) untouched, other closes are no-ops; after every single mutation of every save every metadata object has a decodable full object (discoverable => fetchable), incl. re-saves. Model tied to /repo on every run: random histories on real S3TapeCassettes over a fake bucket with foreign objects and crash residues, comparing outcome kind, mutation log and key set after every call; direct predicate on the implementation's own log/keys plus lookup+fetch through a fresh cassette at every crash point of every save.",
+    text="Coq theorems over all histories of calls (create, save incl. a crash after each single bucket mutation, get, get_metadata, list, close, context exit) on any number of S3 cassettes (all read_only/transient/prefix combinations) sharing one bucket: read-only cassettes never change bucket or log and refuse create/save; every mutated key lies under root+normalised prefix and nothing outside changes; closing a writable transient cassette removes every key it ever wrote and only keys under its full/ and metadata/ prefixes, leaving cassettes with path-independent prefixes (a vs ab) untouched, other closes are no-ops; after every single mutation of every save every metadata object has a decodable full object (discoverable => fetchable), incl. re-saves. Model tied to /repo on every run: random histories on real S3TapeCassettes over a fake bucket (paging client API) with foreign objects and crash residues, incl. transient cassettes holding several listing pages of recordings when closed and slash-shaped prefixes / categories, comparing outcome kind, mutation log and key set after every call; direct predicate on the implementation's own log/keys plus lookup+fetch through a fresh cassette at every crash point of every save.",
     note='Trusted: Coq kernel + vm_compute; hand-written model; fake bucket behind the real S3BasicFacade (atomic per-object mutations, crash = refused mutation); zlib/json.loads/quoted-printable are section oracles with round-trip hypotheses (json.loads o json.dumps = id asked on well-formed trees only; all of them theorems for the concrete parser / simple codec / identity zlib: C15_discoverable_complete_concrete has no oracle premise); assertions enabled. Lookup itself is modelled only as a read (C10 owns it).',
     technique='Coq proof (induction over histories, bucket invariants) + history correspondence by vm_compute + crash-point probing',
 )
